@@ -6,6 +6,7 @@ import (
 	"io"
 	"net"
 	"net/http"
+	"os"
 	"regexp"
 	"runtime"
 	"sort"
@@ -25,7 +26,7 @@ import (
 )
 
 type Act struct {
-	K string `json:"k"` // client, client-traffic, client-close, addconn, dial, dial-refused, backlog, fardeadline, serverclose
+	K string `json:"k"` // client, client-traffic, client-close, addconn, dial, dial-refused, backlog, sendfile, backlog-sendfile, fardeadline, serverclose
 }
 
 type Case struct {
@@ -224,7 +225,7 @@ func runCase(c Case) vlib.Result {
 					_ = p.Close()
 					openAtStop--
 				}
-			case "addconn", "backlog", "fardeadline", "serverclose":
+			case "addconn", "backlog", "sendfile", "backlog-sendfile", "fardeadline", "serverclose":
 				if core == nil {
 					continue
 				}
@@ -241,6 +242,16 @@ func runCase(c Case) vlib.Result {
 				switch a.K {
 				case "backlog":
 					_, _ = nbc.Write(make([]byte, 1<<20))
+				case "sendfile", "backlog-sendfile":
+					// a file transfer the peer does not read: the unsent tail of the file stays queued with a
+					// descriptor the connection owns (alone, or behind queued bytes) until the engine stops
+					if a.K == "backlog-sendfile" {
+						_, _ = nbc.Write(make([]byte, 1<<20))
+					}
+					if f, err := os.Open(bigFile()); err == nil {
+						_, _ = nbc.Sendfile(f, 0)
+						_ = f.Close()
+					}
 				case "fardeadline":
 					_ = nbc.SetDeadline(time.Now().Add(time.Hour))
 				case "serverclose":
@@ -459,7 +470,7 @@ func gen(t *rapid.T) Case {
 	} else {
 		n := rapid.IntRange(0, 8).Draw(t, "nacts")
 		for i := 0; i < n; i++ {
-			c.Acts = append(c.Acts, Act{K: rapid.SampledFrom([]string{"client", "client-traffic", "client-traffic", "client-close", "addconn", "dial", "dial-refused", "backlog", "fardeadline", "serverclose"}).Draw(t, "act")})
+			c.Acts = append(c.Acts, Act{K: rapid.SampledFrom([]string{"client", "client-traffic", "client-traffic", "client-close", "addconn", "dial", "dial-refused", "backlog", "sendfile", "backlog-sendfile", "fardeadline", "serverclose"}).Draw(t, "act")})
 		}
 	}
 	if rapid.IntRange(0, 3).Draw(t, "refuse") == 0 {
@@ -473,6 +484,31 @@ func gen(t *rapid.T) Case {
 
 func TestCheck(t *testing.T) {
 	r := vlib.NewRunner(t, "C18")
+	defer func() {
+		if bigFilePath != "" {
+			_ = os.Remove(bigFilePath)
+		}
+	}()
+	_ = bigFile()
 	vlib.RunCheck(r, vlib.Check[Case]{Name: "stop", N: r.Pick(1200, 20000), Gen: gen, Run: runCase, Confirm: true, RecordCurrent: true})
 	r.Finish()
+}
+
+var (
+	bigFileOnce sync.Once
+	bigFilePath string
+)
+
+// bigFile returns the path of a 2 MiB scratch file (created once per process, before any baseline is taken).
+func bigFile() string {
+	bigFileOnce.Do(func() {
+		f, err := os.CreateTemp("", "c18-sendfile-*")
+		if err != nil {
+			return
+		}
+		_, _ = f.Write(make([]byte, 2<<20))
+		_ = f.Close()
+		bigFilePath = f.Name()
+	})
+	return bigFilePath
 }
